@@ -79,3 +79,11 @@ reg("C07",
     explanation="every ASCII code point, UTF-8 boundary, look-alike string and reserved-character pair in every parameter position (and pairs of positions) of 7 path/query templates, plus URI lengths around the 65534 limit; each built URI is re-parsed, tokenized by a hand-written RFC 3986 model and decoded by path_param / parse_query_params / query_param",
     level_text="Exhaustive exploration over per-character alphabets in every position: URI structure preservation is a per-byte property of the encode set, so every ASCII byte in every position plus all pairs over the reserved alphabet decides it within the bound.",
     level_note="Trusted: the hand-written tokenizer/decoder; http::Uri for re-parsing. The macro client's own copy of the encode set (literals and query keys at expansion time) is covered by the loopback part when built.")
+
+reg("C06",
+    packages=["httpdirect"], bin="httpdirect", level="fault_enumeration", engine="E3a httpdirect",
+    technique="deviation-bounded exhaustive exploration of body-stream histories (chunk splits, empty chunks, pending polls, stream errors) x bodies x Content-Types x size limits on the real request deserializers, judged by a reference acceptance predicate",
+    design_ref="DESIGN.md §3 C06, §2.4",
+    explanation="per parameter type: valid documents, every truncation, 16 trailers, doubled documents, all JSON symbol strings up to the bound, Smile renderings; every stream history within the deviation bound plus uniform 1/2/3-byte chunkings; every Content-Type of an 11-value alphabet; limits 0/1/4/8/16/default; StdRequestDeserializer, OptionalRequestDeserializer, FromRequestDeserializer, BinaryRequestDeserializer; blocking and async",
+    level_text="Fault enumeration over environment answers: every history of the body stream with at most k deviations from 'whole body in one chunk' (and every position of a stream error) is executed on the real deserializers; acceptance is compared with an independent 'exactly one document within the limit' predicate.",
+    level_note="Trusted: plain serde_json/serde_smile as judges of 'one well-formed document'; conjure-serde's server deserializer for the value (C01/C02/C05's business). Generated endpoints with the size-limit tag and handler invocation counts are covered by the loopback part when built.")
